@@ -8,15 +8,20 @@ Wrapped(sid, seq, macOk, inner ∈ {service v, unparsable}) — `macOk` is the v
 server that built the frame (independent crypto) and is an UNINTERPRETED input here.
 A nested wrapper is `inner = service SECURE_WRAPPER`.
 
+Key epochs (multi-session histories on ONE object): every `connect()` makes a fresh ECDH key pair; the harness
+numbers the distinct client public keys it sees in SessionRequests (`kp`) and its own server keys (`es`).  A session
+key is identified by its epoch `(kp, es)`.  Frames carry the epoch they were wrapped under; `macOk` means "the MAC
+verifies under the session key the client CURRENTLY holds", and the monitor assumes `macOk → epoch = current epoch`.
+
 Observations (`t` first):
   conn dap                       `connect()` started; device authentication configured or not
-  rxr sid macOk out              plain SessionResponse received; out ∈ fwd | drop
+  rxr sid macOk es out           plain SessionResponse (server key es) received; out ∈ fwd | drop
   rxp svc out                    any other plain frame received
-  rxw sid seq macOk inner out    SecureWrapper received; out ∈ fwd | drop | exc (CouldNotParseKNXIP escaped)
-  ap svc                         plain frame written by the session itself (connect)
-  aw seq svc aux ok sid          wrapper written by the session itself (SessionAuthenticate, keepalive); opened by the server
-  snd svc aux out                `send(frame)` called; out ∈ plain | wrapped seq | errIpsec | errComm
-  stop out                       `stop()` / connection lost; out ∈ nothing | wrapped seq (SessionStatus CLOSE) | errIpsec
+  rxw sid seq macOk inner ek es out   SecureWrapper (made under epoch (ek, es)) received; out ∈ fwd | drop | exc
+  ap svc kp                      plain frame written by the session itself: the SessionRequest of connect() with key pair kp
+  aw seq svc aux ok sid ek es    wrapper written by the session itself (SessionAuthenticate, keepalive); opened by the server
+  snd svc aux out                `send(frame)` called; out ∈ plain | wrapped seq ek es | errIpsec | errComm
+  stop out                       `stop()` / connection lost; out ∈ nothing | wrapped seq ek es (SessionStatus CLOSE)
   poke v                         harness sets `_sequence_number := v`
   cres kind                      `connect()` finished
   st init seqRecv seqSend        probe of `initialized`, `_sequence_number_received`, `_sequence_number`
@@ -42,16 +47,16 @@ inductive RxOut where
   deriving DecidableEq, Repr
 
 inductive TxOut where
-  | plain | wrapped (seq : Nat) | errIpsec | errComm | nothing
+  | plain | wrapped (seq ek es : Nat) | errIpsec | errComm | nothing
   deriving DecidableEq, Repr
 
 inductive Obs where
   | conn (t : Nat) (dap : Bool)
-  | rxr (t sid : Nat) (macOk : Bool) (out : RxOut)
+  | rxr (t sid : Nat) (macOk : Bool) (es : Nat) (out : RxOut)
   | rxp (t svc : Nat) (out : RxOut)
-  | rxw (t sid seq : Nat) (macOk : Bool) (inner : Inner) (out : RxOut)
-  | ap (t svc : Nat)
-  | aw (t seq svc aux : Nat) (ok : Bool) (sid : Nat)
+  | rxw (t sid seq : Nat) (macOk : Bool) (inner : Inner) (ek es : Nat) (out : RxOut)
+  | ap (t svc kp : Nat)
+  | aw (t seq svc aux : Nat) (ok : Bool) (sid ek es : Nat)
   | snd (t svc aux : Nat) (out : TxOut)
   | stop (t : Nat) (out : TxOut)
   | poke (t v : Nat)
@@ -60,7 +65,7 @@ inductive Obs where
   deriving DecidableEq, Repr
 
 def Obs.time : Obs → Nat
-  | .conn t _ | .rxr t _ _ _ | .rxp t _ _ | .rxw t _ _ _ _ _ | .ap t _ | .aw t _ _ _ _ _ | .snd t _ _ _
+  | .conn t _ | .rxr t _ _ _ _ | .rxp t _ _ | .rxw t _ _ _ _ _ _ _ | .ap t _ _ | .aw t _ _ _ _ _ _ _ | .snd t _ _ _
   | .stop t _ | .poke t _ | .cres t _ | .st t _ _ _ => t
 
 structure State where
@@ -70,7 +75,16 @@ structure State where
   /-- `connect()` is waiting for / working on the SessionResponse -/
   connecting : Bool := false
   /-- the SessionResponse the pending `Session` request holds: (session id, MAC verifies) -/
-  resp : Option (Nat × Bool) := none
+  resp : Option (Nat × Bool × Nat) := none
+  /-- the SessionRequest of the pending `connect()` has been written -/
+  requested : Bool := false
+  /-- id of the client's current ECDH key pair, number of key pairs seen so far -/
+  kp : Nat := 0
+  nKeys : Nat := 0
+  /-- key epoch of the session key: (client key pair id, server key id) adopted at the handshake -/
+  keyEp : Nat × Nat := (0, 0)
+  /-- ghost: a `connect()` restarted the counters while the old session key was still in use -/
+  keyReuse : Bool := false
   /-- device authentication code configured (SessionResponse MAC is checked) -/
   dap : Bool := false
   initialized : Bool := false
@@ -98,9 +112,9 @@ def rxWrapped (s : State) (sid seq : Nat) (macOk : Bool) (inner : Inner) : RxOut
       else (.fwd, { s with seqRecv := seq })
 
 /-- a plain SessionResponse -/
-def rxResponse (s : State) (sid : Nat) (macOk : Bool) : RxOut × State :=
+def rxResponse (s : State) (sid : Nat) (macOk : Bool) (es : Nat) : RxOut × State :=
   if s.initialized then (.drop, s)
-  else (.fwd, if s.connecting then { s with resp := some (sid, macOk) } else s)
+  else (.fwd, if s.connecting then { s with resp := some (sid, macOk, es) } else s)
 
 /-- any other plain frame -/
 def rxPlain (s : State) (_svc : Nat) : RxOut × State := (.drop, s)
@@ -109,19 +123,19 @@ def rxPlain (s : State) (_svc : Nat) : RxOut × State := (.drop, s)
 def send (s : State) (svc : Nat) : TxOut × State :=
   if s.initialized then
     if s.seqSend < seqLimit then
-      (.wrapped s.seqSend, { s with seqSend := s.seqSend + 1, keepaliveAt := some (s.now + keepaliveMs) })
+      (.wrapped s.seqSend s.keyEp.1 s.keyEp.2, { s with seqSend := s.seqSend + 1, keepaliveAt := some (s.now + keepaliveMs) })
     else (.errIpsec, s)                                              -- counter exhausted: IPSecureError, nothing written
   else if svc = sessionRequest then
     if s.isOpen then (.plain, s) else (.errComm, s)
   else (.errIpsec, s)                                                -- only SessionRequest may be sent unencrypted
 
-/-- `SecureSession.stop` (also reached through `_connection_lost`) -/
+/-- `SecureSession.stop` (also reached through `_connection_lost`).  If the CLOSE frame cannot be wrapped
+(counter exhausted) the session is torn down all the same. -/
 def stop (s : State) : TxOut × State :=
-  if s.isOpen && s.initialized then
-    if s.seqSend < seqLimit then
-      (.wrapped s.seqSend, { s with seqSend := s.seqSend + 1, initialized := false, keepaliveAt := none, isOpen := false })
-    else (.errIpsec, s)                                              -- encrypt_frame raised: stop() did not complete
-  else (.nothing, { s with initialized := false, keepaliveAt := none, isOpen := false })
+  if s.isOpen && s.initialized && decide (s.seqSend < seqLimit) then
+    (.wrapped s.seqSend s.keyEp.1 s.keyEp.2,
+      { s with seqSend := s.seqSend + 1, initialized := false, keepaliveAt := none, isOpen := false, requested := false })
+  else (.nothing, { s with initialized := false, keepaliveAt := none, isOpen := false, requested := false })
 
 /-- Let time pass; a due keepalive must have been written (unless the counter is exhausted: the task died). -/
 def advance (s : State) (t : Nat) : Option State :=
@@ -136,18 +150,20 @@ def advance (s : State) (t : Nat) : Option State :=
 /-- A wrapper the session writes by itself: the SessionAuthenticate that completes the handshake
 (`initialized := True` happens right before it), the periodic keepalive, or - on a `connect()` over a session
 that is still initialized - the SessionRequest. -/
-def autoWrite (s : State) (t seq svc aux : Nat) (ok : Bool) (sid : Nat) : Option State :=
+def autoWrite (s : State) (t seq svc aux : Nat) (ok : Bool) (sid ek es : Nat) : Option State :=
   if svc = sessionAuthenticate then
     match s.resp with
-    | some (rsid, rmac) =>
-      if s.connecting = true ∧ s.initialized = false ∧ (s.dap = true → rmac = true) ∧ ok = true ∧ seq = s.seqSend ∧
-          sid = rsid ∧ s.seqSend < seqLimit then
-        some { s with initialized := true, sessionId := rsid, connecting := false, resp := none,
+    | some (rsid, rmac, res) =>
+      -- the session key comes from the key pair of THIS connect's SessionRequest and the server key of the response
+      if s.connecting = true ∧ s.requested = true ∧ s.initialized = false ∧ (s.dap = true → rmac = true) ∧ ok = true ∧
+          seq = s.seqSend ∧ sid = rsid ∧ s.seqSend < seqLimit ∧ (ek, es) = (s.kp, res) then
+        some { s with initialized := true, sessionId := rsid, connecting := false, resp := none, requested := false,
+                      keyEp := (s.kp, res),
                       seqSend := s.seqSend + 1, keepaliveAt := some (t + keepaliveMs) }
       else none
     | none => none
   else if (svc = sessionStatus ∧ aux = statusKeepalive ∧ s.keepaliveAt = some t) ∨ (svc = sessionRequest ∧ s.connecting = true) then
-    if s.initialized = true ∧ ok = true ∧ seq = s.seqSend ∧ sid = s.sessionId ∧ s.seqSend < seqLimit then
+    if s.initialized = true ∧ ok = true ∧ seq = s.seqSend ∧ sid = s.sessionId ∧ s.seqSend < seqLimit ∧ (ek, es) = s.keyEp then
       some { s with seqSend := s.seqSend + 1, keepaliveAt := some (t + keepaliveMs) }
     else none
   else none
@@ -161,17 +177,24 @@ def step? (s0 : State) (o : Obs) : Option State :=
     -- (a `connect()` on a still initialized session - `stop()` failed on an exhausted counter - is modelled too:
     --  its SessionRequest then goes out wrapped, see `aw`)
     if s.connecting = true then none
-    else some { s with isOpen := true, connecting := true, resp := none, dap := dap, seqSend := 0, seqRecv := -1 }
-  | .rxr _ sid macOk out =>
-    if out = (rxResponse s sid macOk).1 then some (rxResponse s sid macOk).2 else none
+    else some { s with isOpen := true, connecting := true, resp := none, requested := false, dap := dap, seqSend := 0,
+                       seqRecv := -1, keyReuse := s.keyReuse || s.initialized }
+  | .rxr _ sid macOk es out =>
+    if out = (rxResponse s sid macOk es).1 then some (rxResponse s sid macOk es).2 else none
   | .rxp _ svc out =>
     if svc ≠ sessionResponse ∧ svc ≠ secureWrapper ∧ out = (rxPlain s svc).1 then some (rxPlain s svc).2 else none
-  | .rxw _ sid seq macOk inner out =>
-    if out = (rxWrapped s sid seq macOk inner).1 then some (rxWrapped s sid seq macOk inner).2 else none
-  | .ap _ svc =>
-    -- the SessionRequest written by `connect()`
-    if s.initialized = false ∧ s.connecting = true ∧ s.isOpen = true ∧ svc = sessionRequest then some s else none
-  | .aw t seq svc aux ok sid => autoWrite s t seq svc aux ok sid
+  | .rxw _ sid seq macOk inner ek es out =>
+    -- `macOk` = the MAC verifies under the CURRENT session key; a frame wrapped under another key epoch does not
+    -- (assumption on the inputs, the analogue of C28's no-collision hypothesis)
+    if (macOk = true → (ek, es) = s.keyEp) ∧ out = (rxWrapped s sid seq macOk inner).1 then
+      some (rxWrapped s sid seq macOk inner).2
+    else none
+  | .ap _ svc kp =>
+    -- the SessionRequest written by `connect()`: it carries the public key of a key pair never used before
+    if s.initialized = false ∧ s.connecting = true ∧ s.isOpen = true ∧ svc = sessionRequest ∧ kp = s.nKeys then
+      some { s with requested := true, kp := kp, nKeys := s.nKeys + 1 }
+    else none
+  | .aw t seq svc aux ok sid ek es => autoWrite s t seq svc aux ok sid ek es
   | .snd _ svc _ out =>
     if out = (send s svc).1 then some (send s svc).2 else none
   | .stop _ out =>
@@ -182,7 +205,7 @@ def step? (s0 : State) (o : Obs) : Option State :=
       | some k => decide (k ≤ t) && decide (seqLimit ≤ s.seqSend)
       | none => false
     some { s with seqSend := v, keepaliveAt := if dead then none else s.keepaliveAt }
-  | .cres _ _ => some { s with connecting := false, resp := none }
+  | .cres _ _ => some { s with connecting := false, resp := none, requested := false }
   | .st _ i r q =>
     if i = s.initialized ∧ r = s.seqRecv ∧ q = s.seqSend then some s else none
 
@@ -216,7 +239,10 @@ def parseTxOut (s : String) : Option TxOut :=
   else if s == "n" then some .nothing
   else if s == "e:ipsec" then some .errIpsec
   else if s == "e:comm" then some .errComm
-  else if s.startsWith "w" then (s.drop 1).toNat?.map .wrapped
+  else if s.startsWith "w" then
+    match (s.drop 1).toString.splitOn ":" with
+    | [a, b, c] => do some (.wrapped (← a.toNat?) (← b.toNat?) (← c.toNat?))
+    | _ => none
   else none
 
 def parseInner (s : String) : Option Inner :=
@@ -230,13 +256,16 @@ def parseInt (s : String) : Option Int :=
 def parseObs (tok : String) : Option Obs :=
   match tok.splitOn "," with
   | ["conn", t, d] => do some (.conn (← t.toNat?) (← parseBool d))
-  | ["rxr", t, sid, m, out] => do some (.rxr (← t.toNat?) (← sid.toNat?) (← parseBool m) (← parseRxOut out))
+  | ["rxr", t, sid, m, es, out] => do
+    some (.rxr (← t.toNat?) (← sid.toNat?) (← parseBool m) (← es.toNat?) (← parseRxOut out))
   | ["rxp", t, svc, out] => do some (.rxp (← t.toNat?) (← svc.toNat?) (← parseRxOut out))
-  | ["rxw", t, sid, seq, m, inner, out] => do
-    some (.rxw (← t.toNat?) (← sid.toNat?) (← seq.toNat?) (← parseBool m) (← parseInner inner) (← parseRxOut out))
-  | ["ap", t, svc] => do some (.ap (← t.toNat?) (← svc.toNat?))
-  | ["aw", t, seq, svc, aux, ok, sid] => do
-    some (.aw (← t.toNat?) (← seq.toNat?) (← svc.toNat?) (← aux.toNat?) (← parseBool ok) (← sid.toNat?))
+  | ["rxw", t, sid, seq, m, inner, ek, es, out] => do
+    some (.rxw (← t.toNat?) (← sid.toNat?) (← seq.toNat?) (← parseBool m) (← parseInner inner) (← ek.toNat?) (← es.toNat?)
+      (← parseRxOut out))
+  | ["ap", t, svc, kp] => do some (.ap (← t.toNat?) (← svc.toNat?) (← kp.toNat?))
+  | ["aw", t, seq, svc, aux, ok, sid, ek, es] => do
+    some (.aw (← t.toNat?) (← seq.toNat?) (← svc.toNat?) (← aux.toNat?) (← parseBool ok) (← sid.toNat?) (← ek.toNat?)
+      (← es.toNat?))
   | ["snd", t, svc, aux, out] => do some (.snd (← t.toNat?) (← svc.toNat?) (← aux.toNat?) (← parseTxOut out))
   | ["stop", t, out] => do some (.stop (← t.toNat?) (← parseTxOut out))
   | ["poke", t, v] => do some (.poke (← t.toNat?) (← v.toNat?))
